@@ -97,8 +97,8 @@ func (c *tcpClient) DialStream(ctx context.Context) (net.Conn, error) {
 	var d net.Dialer
 	return d.DialContext(ctx, "tcp", c.addr)
 }
-func (c *tcpClient) FrameSize() int            { return 4296 }
-func (c *tcpClient) PeerKey() types.PublicKey  { return c.peer }
-func (c *tcpClient) Close() error              { return nil }
+func (c *tcpClient) FrameSize() int           { return 4296 }
+func (c *tcpClient) PeerKey() types.PublicKey { return c.peer }
+func (c *tcpClient) Close() error             { return nil }
 
 var errDialRefused = errors.New("dial refused by the fault plan")
